@@ -57,14 +57,14 @@ def run(prog, rec):
 
     ses = Session(rec, prog["tid"], {}, {})
 
-    def emit(shape, newshape, subsizes, back):
+    def emit(shape, newshape, subsizes, back, wellposed=False):
         try:
             plan = calc_reshape_args(tuple(shape), tuple(newshape), tuple(subsizes))
             outcome = "ok"
         except Exception:  # noqa
             plan, outcome = ((), (), ()), "raise"
         tab = {"t": "table", "shape": list(shape), "newshape": list(newshape),
-               "subsizes": [list(s) if s is not None else [] for s in subsizes], "back": bool(back),
+               "subsizes": [list(s) if s is not None else [] for s in subsizes], "back": bool(back), "wellposed": bool(wellposed),
                "plan": {"unfuse": list(plan[0]), "fuse": [[list(g) for g in grouping] for grouping in plan[1]],
                         "expand": list(plan[2])}}
         ses.regs = {"tab": tab}
@@ -81,5 +81,10 @@ def run(prog, rec):
             axes = simulate(shape, none, plan)
             if tuple(a[0] for a in axes) != tuple(t):
                 continue   # the forward plan is already reported by the spec
-            emit(t, shape, tuple(a[1] for a in axes), True)
+            subs = tuple(a[1] for a in axes)
+            emit(t, shape, subs, True)
+            # un-merging AND asking for a new unit axis in the same request (any position): not a round trip the
+            # property promises, but whatever plan is returned must give the requested shape
+            for p in range(len(shape) + 1):
+                emit(t, shape[:p] + (1,) + shape[p:], subs, False, wellposed=True)
     ses.close()
